@@ -26,7 +26,8 @@ def cases(run: Run):
         out.append({
             "dt": rng.choice([60, 60, 30]), "steps": rng.randint(3, 5), "ns": rng.randint(1, 2), "nt": rng.randint(2, 3), "prop": rng.choice(["two_body", "special_perturbations"]),
             "start_sec": rng.choice([0, 17]), "seed": rng.randint(1, 10**6), "impulse": rng.random() < 0.6,
-            "variants": rng.sample(["truth_only", "greedy", "noise_seed", "out2", "split", "order", "extra_target", "extra_sensor", "fewer_targets", "random_decision", "no_station"], run.n(5, 8)),
+            "variants": rng.sample(["truth_only", "greedy", "noise_seed", "out2", "split", "order", "extra_target", "extra_sensor", "fewer_targets", "random_decision", "filter_model", "filter_model", "no_additions"], run.n(6, 9)),
+            "additions": rng.choice([2, 2, 0, 1]),
         })
     return out
 
@@ -59,8 +60,22 @@ def build(c, v):
     if c["impulse"]:
         events.append({"scope": "agent_propagation", "scope_instance_id": 10001, "start_time": scen.iso(start + timedelta(seconds=c["dt"] * 2)),
                        "end_time": scen.iso(start + timedelta(seconds=c["dt"] * 2)), "event_type": "impulse", "thrust_vector": [0.0, 0.01, 0.0], "thrust_frame": "ntw", "planned": False})
+    # targets that join at run time (scenario-step events): their truth must not depend on estimation settings either
+    for j in range(c.get("additions", 0) if v != "no_additions" else 0):
+        lat, lon = [(3.0, -1.0), (-2.0, 5.0)][j]
+        ecef = lla2ecef(np.array([np.radians(lat), np.radians(lon), 900.0 + 40 * j]))
+        eci = ecef2eci(ecef, datetime(2021, 3, 30, 16, 1, 30))
+        r = eci[:3]
+        vv = np.cross([0, 0, 1.0], r)
+        vv = vv / np.linalg.norm(vv) * np.sqrt(398600.4418 / np.linalg.norm(r))
+        when = scen.iso(start + timedelta(seconds=c["dt"] * (j + 1)))
+        events.append({"scope": "scenario_step", "scope_instance_id": 0, "start_time": when, "end_time": when, "event_type": "target_addition",
+                       "tasking_engine_id": 1, "target_agent": scen.target_cfg(10101 + j, r, vv)})
     cfg = scen.scenario_cfg(start, c["dt"], c["dt"] * (c["steps"] + 1), eng, out_step=(2 * c["dt"] if v == "out2" else c["dt"]), truth_only=(v == "truth_only"),
                             seed=(c["seed"] + 1 if v == "noise_seed" else c["seed"]), events=events, prop=c["prop"])
+    if v == "filter_model":
+        other = "special_perturbations" if c["prop"] == "two_body" else "two_body"
+        cfg["estimation"]["sequential_filter"]["dynamics_model"] = other
     return scen.build(cfg), start
 
 
@@ -120,7 +135,7 @@ def compare(run: Run, c, base, other, v):
     for k, (a, b) in enumerate(zip(base["traj"], other["traj"])):
         if b is None:
             continue
-        for aid in a:
+        for aid in (a or {}):
             if aid in b and a[aid] != b[aid]:
                 fails.append((f"truth:{v}", f"step {k}: truth state of agent {aid} differs between the baseline run and variant '{v}' ({c['prop']}, dt {c['dt']}, impulse {c['impulse']})"))
                 return fails
